@@ -7,6 +7,7 @@ import (
 	"time"
 
 	"hop.computer/hop/certs"
+	"hop.computer/hop/hopserver"
 	"hop.computer/hop/keys"
 	"hop.computer/hop/transport"
 )
@@ -274,14 +275,15 @@ func scCounterfeit(r *Run) {
 	clientPKI := NewPKI("client-ca")
 	nClients := 1 + r.Intn("cfg", 3)
 	type cl struct {
-		id       *identity
-		listed   bool
-		addr     byte
-		tc       *transport.Client
-		herr     error
-		tag      string
-		authOK   bool
-		listedAs string
+		id                *identity
+		listed            bool
+		addr              byte
+		tc                *transport.Client
+		herr              error
+		tag               string
+		authOK            bool
+		listedAs          string
+		listedThenRemoved bool
 	}
 	var cls []*cl
 	authKeys := AuthKeySet()
@@ -302,6 +304,7 @@ func scCounterfeit(r *Run) {
 			// the key WAS authorized once (a consumed grant, an edited file): listed, then removed again
 			authKeys.AddKey(c.id.leaf.PublicKey)
 			authKeys.RemoveKey(c.id.leaf.PublicKey)
+			c.listedThenRemoved = true
 			r.CountFault("counterfeit-key-listed-then-removed", 1)
 		}
 		c.tag = fmt.Sprintf("client-%d-%s", i, fakeNames[kind])
@@ -319,7 +322,33 @@ func scCounterfeit(r *Run) {
 	case 3:
 		cv.InsecureSkipVerify = true
 	}
-	srv := StartServer(r, n, ServerOpts{PKI: pki, Hidden: hidden, ClientVerify: cv, HSTimeout: 3 * time.Second})
+	var srv *TServer
+	if r.Intn("cfg", 2) == 0 {
+		// the server is built by the real hopserver.NewHopServer: the verification policy is what the
+		// constructor derives from the configuration (CA certificates, the enable/disable switches)
+		var hs *hopserver.HopServer
+		srv, hs = StartServerViaHopServer(r, n, ServerOpts{PKI: pki, Hidden: hidden, HSTimeout: 3 * time.Second}, policy,
+			[]*certs.Certificate{clientPKI.Root, clientPKI.Int})
+		if srv != nil {
+			r.Probe("policy-derived-by-the-real-NewHopServer")
+			if ks := hs.VerifKeyStore(); ks != nil {
+				for _, c := range cls {
+					if c.listed {
+						ks.AddKey(c.id.leaf.PublicKey)
+					} else if c.listedThenRemoved {
+						ks.AddKey(c.id.leaf.PublicKey)
+						ks.RemoveKey(c.id.leaf.PublicKey)
+					}
+				}
+			} else if policy == 1 || policy == 2 {
+				r.Violate("C01/policy-not-derived/no-key-set", "hopserver.NewHopServer, configured for the policy %s, handed its transport layer no set of authorized keys: that policy is not in force", policyName)
+				return
+			}
+		}
+	}
+	if srv == nil {
+		srv = StartServer(r, n, ServerOpts{PKI: pki, Hidden: hidden, ClientVerify: cv, HSTimeout: 3 * time.Second})
+	}
 	defer srv.Srv.Close()
 	reg := NewHandleRegistry(r, srv.Srv)
 	maxWait := time.Duration(0)
